@@ -1076,3 +1076,18 @@ pub fn sealed_reconfigure_bad(count: u32, width: u8) -> SealedFooter {
     f.width = width;
     f
 }
+
+// ---------------------------------------------------------------------------------------------------------------
+// E-bitfield witnesses
+// ---------------------------------------------------------------------------------------------------------------
+pub fn pack_fields_ok(id: u32, offset: u32) -> u32 {
+    (id << 30) | (offset & 0x3FFF_FFFF)
+}
+
+pub fn pack_fields_bad(id: u32, offset: u32) -> u32 {
+    (id << 30) | (offset & 0x03FF_FFFF)
+}
+
+pub fn unpack_fields_ok(w: u32) -> (u32, u32) {
+    (w >> 30, w & 0x3FFF_FFFF)
+}
